@@ -2,6 +2,7 @@ import IvpModel.Driver.MatrixDrv
 import IvpModel.Driver.SolOutDrv
 import IvpModel.Driver.SolveDrv
 import IvpModel.Driver.LuDrv
+import IvpModel.Driver.PyDrv
 
 def main (args : List String) : IO UInt32 := do
   let stdin ← IO.getStdin
@@ -12,6 +13,9 @@ def main (args : List String) : IO UInt32 := do
       return 0
   | ["lu"] =>
       for o in Drv.Lu.run lines do IO.println o
+      return 0
+  | ["py"] =>
+      for o in Drv.PyDrv.run lines do IO.println o
       return 0
   | ["solve"] =>
       for o in Drv.Solve.run lines do IO.println o
